@@ -9,11 +9,11 @@ import FlexiVerif.Props.C07
   a new process on the same directory; `append`, buffer capacity, symlink and suffix setting free
   per run, same rotation configuration), each directly after a flush/shutdown/restart.
   Rotation configuration `r` with `r.cleanup = some (k, m)`; every criterion (size, age, both,
-  none); all four namings. `numbers`, `numbersDirect`, `timestamps`: no guard. `timestampsDirect`:
-  under the guard against finding D22 (`TsdGuard`: whenever a run WITH `append` is started, the
-  newest stamp in the directory has no `.restart-N` sibling; trivially true if no restarted run
-  appends, `tsdGuard_of_noAppend`). Without the guard the statements are false, and with cleanup
-  worse than D22 alone: the newest records are lost (`tsd_append_cleanup_violation_witness`).
+  none); all four namings, no guard. (`timestampsDirect` with appending restarts needed a guard
+  before the `fix:` of finding D22, `C06-tsd-append-after-restart-files`: an appending run
+  re-opened the BASE file of the newest second even if `.restart-N` siblings were newer, and
+  with cleanup the newest records were lost. Now such a run continues the newest file;
+  `tsd_append_cleanup_former_witness` is the history that refuted the statements then.)
 
   The reference is the abstract multi-run log WITHOUT cleanup of C06 (`FV.FlwA.MAbs`: a run
   without `append` closes the current file it finds — exactly a rotation —, a run with `append`
@@ -31,17 +31,6 @@ open FV.FlwA (MAbs MultiRun ents)
 def fullLog (cfg : Cfg) (ops : List (Op × Nat × Faults)) : List (List Nat) :=
   (MAbs.run cfg.rot ⟨Abs.init, false, cfg.append⟩ ops).abs.files
 
-/-- the premise on `timestampsDirect` histories holds if no restarted run appends … -/
-theorem tsdGuard_of_noAppend {cfg : Cfg} {r : RotCfg} {ops : List (Op × Nat × Faults)}
-    (h : r.naming = .timestampsDirect → ∀ o ∈ ops, ∀ c, o.1 = .restart c → c.append = false) :
-    TsdGuard cfg r ops :=
-  FV.FlwRC.tsdGuard_of_noAppend h
-
-/-- … and nothing is required of the other namings -/
-theorem tsdGuard_of_not_tsd {cfg : Cfg} {r : RotCfg} {ops : List (Op × Nat × Faults)}
-    (h : r.naming ≠ .timestampsDirect) : TsdGuard cfg r ops :=
-  FV.FlwRC.tsdGuard_of_not_tsd h
-
 /-- the limit of the invariant (closed files kept, plus the current one) in the terms of C07 -/
 theorem keep_lim {r : RotCfg} {k m : Nat} (hc : r.cleanup = some (k, m)) :
     succL (limOf r) = some (kk r k + m + (if r.naming.writesDirect then 0 else 1)) := by
@@ -58,11 +47,10 @@ theorem keep_lim {r : RotCfg} {k m : Nat} (hc : r.cleanup = some (k, m)) :
     initialisation of a new run (which renames a left-over `rCURRENT` and runs cleanup) removes
     exactly what a rotation at that point would have removed. -/
 theorem restart_cleanup_keeps_newest (cfg : Cfg) (r : RotCfg) (k m : Nat) (hr : cfg.rot = some r)
-    (hc : r.cleanup = some (k, m)) (ops : List (Op × Nat × Faults)) (hm : MultiRun cfg.rot ops)
-    (htsd : TsdGuard cfg r ops) :
+    (hc : r.cleanup = some (k, m)) (ops : List (Op × Nat × Faults)) (hm : MultiRun cfg.rot ops) :
     viewFiles (runOps (init cfg []) ops) =
       lastN (kk r k + m + (if r.naming.writesDirect then 0 else 1)) (fullLog cfg ops) := by
-  obtain ⟨t, hi⟩ := multi_run_inv cfg r hr ops hm htsd
+  obtain ⟨t, hi⟩ := multi_run_inv cfg r hr ops hm
   rw [hi.view, keep_lim hc]
   rfl
 
@@ -70,50 +58,47 @@ theorem restart_cleanup_keeps_newest (cfg : Cfg) (r : RotCfg) (k m : Nat) (hr : 
     the files of the abstract multi-run log: nothing is lost, merged or reordered by restarts.
     (C06 proved this for `numbers`/`timestamps`, and only the stream for the direct namings.) -/
 theorem multi_run_files_uncleaned (cfg : Cfg) (r : RotCfg) (hr : cfg.rot = some r)
-    (hc : r.cleanup = none) (ops : List (Op × Nat × Faults)) (hm : MultiRun cfg.rot ops)
-    (htsd : TsdGuard cfg r ops) :
+    (hc : r.cleanup = none) (ops : List (Op × Nat × Faults)) (hm : MultiRun cfg.rot ops) :
     viewFiles (runOps (init cfg []) ops) = fullLog cfg ops := by
-  obtain ⟨t, hi⟩ := multi_run_inv cfg r hr ops hm htsd
+  obtain ⟨t, hi⟩ := multi_run_inv cfg r hr ops hm
   rw [hi.view, limOf_none hc]
   rfl
 
 /-- **2, in terms of the directory — every naming.** The surviving files are exactly the newest
     files of THE SAME HISTORY RUN WITH CLEANUP SWITCHED OFF (every run, the first one and every
-    restarted one, with `Cleanup::Never`; by C06 that run keeps every record).
-    (`timestampsDirect`: the guard is needed for both runs.) -/
+    restarted one, with `Cleanup::Never`; by C06 that run keeps every record). -/
 theorem restart_cleanup_vs_uncleaned (cfg : Cfg) (r : RotCfg) (k m : Nat)
     (hr : cfg.rot = some r) (hc : r.cleanup = some (k, m))
-    (ops : List (Op × Nat × Faults)) (hm : MultiRun cfg.rot ops) (htsd : TsdGuard cfg r ops)
-    (htsd' : TsdGuard (offCfg cfg) (offRot r) (offOps ops)) :
+    (ops : List (Op × Nat × Faults)) (hm : MultiRun cfg.rot ops) :
     viewFiles (runOps (init cfg []) ops) =
       lastN (kk r k + m + (if r.naming.writesDirect then 0 else 1))
         (viewFiles (runOps (init (offCfg cfg) []) (offOps ops))) := by
-  rw [restart_cleanup_keeps_newest cfg r k m hr hc ops hm htsd]
+  rw [restart_cleanup_keeps_newest cfg r k m hr hc ops hm]
   have hr' : (offCfg cfg).rot = some (offRot r) := by simp [offCfg, hr]
   have hm' : MultiRun (offCfg cfg).rot (offOps ops) := offOps_multiRun cfg.rot ops hm
-  rw [multi_run_files_uncleaned (offCfg cfg) (offRot r) hr' rfl (offOps ops) hm' htsd']
+  rw [multi_run_files_uncleaned (offCfg cfg) (offRot r) hr' rfl (offOps ops) hm']
   have : fullLog (offCfg cfg) (offOps ops) = fullLog cfg ops := by
     unfold fullLog
     have := mabs_run_off cfg.rot ops ⟨Abs.init, false, cfg.append⟩
     exact congrArg (fun x => x.abs.files) this
   rw [this]
 
-/-- … no guard for `numbers`, `numbersDirect`, `timestamps` -/
+/-- … the instance for `numbers`, `numbersDirect`, `timestamps` (the namings for which no guard
+    was needed before the `fix:` of finding D22; now a special case) -/
 theorem restart_cleanup_vs_uncleaned_unguarded (cfg : Cfg) (r : RotCfg) (k m : Nat)
     (hr : cfg.rot = some r) (hc : r.cleanup = some (k, m))
-    (hnm : r.naming ≠ .timestampsDirect)
+    (_hnm : r.naming ≠ .timestampsDirect)
     (ops : List (Op × Nat × Faults)) (hm : MultiRun cfg.rot ops) :
     viewFiles (runOps (init cfg []) ops) =
       lastN (kk r k + m + (if r.naming.writesDirect then 0 else 1))
         (viewFiles (runOps (init (offCfg cfg) []) (offOps ops))) :=
-  restart_cleanup_vs_uncleaned cfg r k m hr hc ops hm (tsdGuard_of_not_tsd hnm)
-    (tsdGuard_of_not_tsd hnm)
+  restart_cleanup_vs_uncleaned cfg r k m hr hc ops hm
 
 /-- the abstract multi-run log contains every record of every run exactly once, in order -/
 theorem fullLog_flatten (cfg : Cfg) (r : RotCfg) (hr : cfg.rot = some r)
-    (ops : List (Op × Nat × Faults)) (hm : MultiRun cfg.rot ops)
-    (htsd : TsdGuard cfg r ops) : (fullLog cfg ops).flatten = written ops := by
-  obtain ⟨t, hi⟩ := multi_run_inv cfg r hr ops hm htsd
+    (ops : List (Op × Nat × Faults)) (hm : MultiRun cfg.rot ops) :
+    (fullLog cfg ops).flatten = written ops := by
+  obtain ⟨t, hi⟩ := multi_run_inv cfg r hr ops hm
   unfold fullLog
   rw [hi.files_flat, FV.FlwA.MAbs.run_flat cfg.rot ops (Or.inl (by simp [hr])) _
     (Or.inl (by simp [hr]))]
@@ -123,11 +108,10 @@ theorem fullLog_flatten (cfg : Cfg) (r : RotCfg) (hr : cfg.rot = some r)
     oldest → newest, compressed files decompressed, buffer included) is a contiguous TAIL of
     everything logged by all runs. -/
 theorem restart_cleanup_tail (cfg : Cfg) (r : RotCfg) (k m : Nat) (hr : cfg.rot = some r)
-    (hc : r.cleanup = some (k, m)) (ops : List (Op × Nat × Faults)) (hm : MultiRun cfg.rot ops)
-    (htsd : TsdGuard cfg r ops) :
+    (hc : r.cleanup = some (k, m)) (ops : List (Op × Nat × Faults)) (hm : MultiRun cfg.rot ops) :
     ∃ pre, written ops = pre ++ (viewFiles (runOps (init cfg []) ops)).flatten := by
-  rw [restart_cleanup_keeps_newest cfg r k m hr hc ops hm htsd,
-    ← fullLog_flatten cfg r hr ops hm htsd]
+  rw [restart_cleanup_keeps_newest cfg r k m hr hc ops hm,
+    ← fullLog_flatten cfg r hr ops hm]
   generalize fullLog cfg ops = fs
   refine ⟨(fs.take (fs.length - (kk r k + m + (if r.naming.writesDirect then 0 else 1)))).flatten, ?_⟩
   rw [← List.flatten_append, FV.C07.take_append_lastN]
@@ -135,15 +119,14 @@ theorem restart_cleanup_tail (cfg : Cfg) (r : RotCfg) (k m : Nat) (hr : cfg.rot 
 /-- **2 — record boundaries.** The surviving files are the last groups of a grouping of the
     records written by all runs (each record exactly once, in order, never split). -/
 theorem restart_cleanup_tail_groups (cfg : Cfg) (r : RotCfg) (k m : Nat) (hr : cfg.rot = some r)
-    (hc : r.cleanup = some (k, m)) (ops : List (Op × Nat × Faults)) (hm : MultiRun cfg.rot ops)
-    (htsd : TsdGuard cfg r ops) :
+    (hc : r.cleanup = some (k, m)) (ops : List (Op × Nat × Faults)) (hm : MultiRun cfg.rot ops) :
     ∃ groups : List (List (List Nat)), groups.flatten = records ops ∧
       viewFiles (runOps (init cfg []) ops) =
         (lastN (kk r k + m + (if r.naming.writesDirect then 0 else 1)) groups).map
           List.flatten := by
   obtain ⟨groups, h1, h2⟩ := mabs_files_groups r cfg.append ops
   refine ⟨groups, h1, ?_⟩
-  rw [restart_cleanup_keeps_newest cfg r k m hr hc ops hm htsd, ← FV.C07.lastN_map, ← h2]
+  rw [restart_cleanup_keeps_newest cfg r k m hr hc ops hm, ← FV.C07.lastN_map, ← h2]
   unfold fullLog
   rw [hr]
 
@@ -177,8 +160,7 @@ theorem index_above_disk (cfg : Cfg) (r : RotCfg) (hr : cfg.rot = some r)
     (ops : List (Op × Nat × Faults)) (hm : MultiRun cfg.rot ops) (act : Active)
     (hact : (runOps (init cfg []) ops).act = some act) :
     ∀ e ∈ ents (runOps (init cfg []) ops).dir, ∀ n, e.1.ifx = some (.num n) → n < act.idx := by
-  have htsd : TsdGuard cfg r ops := tsdGuard_of_not_tsd (by rw [hnm]; intro h; cases h)
-  obtain ⟨t, hi⟩ := multi_run_inv cfg r hr ops hm htsd
+  obtain ⟨t, hi⟩ := multi_run_inv cfg r hr ops hm
   rcases hi.rinv with ⟨hd, -⟩ | ⟨act', hI, hsame, -⟩
   · rw [hd]
     intro e he
@@ -195,8 +177,7 @@ theorem index_above_disk_direct (cfg : Cfg) (r : RotCfg) (hr : cfg.rot = some r)
     act.handle = ⟨some (.num act.idx), false⟩ ∧
     ∀ e ∈ ents (runOps (init cfg []) ops).dir, ∀ n, e.1.ifx = some (.num n) →
       n < act.idx ∨ e.1 = act.handle := by
-  have htsd : TsdGuard cfg r ops := tsdGuard_of_not_tsd (by rw [hnm]; intro h; cases h)
-  obtain ⟨t, hi⟩ := multi_run_inv cfg r hr ops hm htsd
+  obtain ⟨t, hi⟩ := multi_run_inv cfg r hr ops hm
   obtain ⟨-, -, hl⟩ := hi
   rcases hl with ⟨-, a2, ha2, hI2, -, -⟩ | ⟨-, hnone, -⟩
   · rw [ha2] at hact
@@ -216,10 +197,6 @@ theorem index_counts_all_runs (cfg : Cfg) (r : RotCfg) (k m : Nat) (hr : cfg.rot
     (ops : List (Op × Nat × Faults)) (hm : MultiRun cfg.rot ops) (act : Active)
     (hact : (runOps (init cfg []) ops).act = some act) :
     act.idx = closedCount cfg ops := by
-  have htsd : TsdGuard cfg r ops := by
-    apply tsdGuard_of_not_tsd
-    intro h
-    rcases hex with h' | ⟨h', -⟩ <;> rw [h'] at h <;> cases h
   have hex' : IdxExact r := by
     rcases hex with h | ⟨h, hk⟩
     · exact Or.inl h
@@ -229,7 +206,7 @@ theorem index_counts_all_runs (cfg : Cfg) (r : RotCfg) (k m : Nat) (hr : cfg.rot
       intro h0
       have : k + m = 0 := Option.some.inj h0
       omega
-  obtain ⟨t, hi⟩ := multi_run_inv cfg r hr ops hm htsd
+  obtain ⟨t, hi⟩ := multi_run_inv cfg r hr ops hm
   obtain ⟨-, -, hl⟩ := hi
   rcases hl with ⟨-, a2, ha2, hI2, -, -⟩ | ⟨-, hnone, -⟩
   · rw [ha2] at hact
@@ -247,9 +224,8 @@ theorem rotated_names_numbers (cfg : Cfg) (r : RotCfg) (k m : Nat) (hr : cfg.rot
     (ops : List (Op × Nat × Faults)) (hm : MultiRun cfg.rot ops) :
     (rotatedAsc (runOps (init cfg []) ops).dir).map (·.1.ifx) =
       (lastN (k + m) (List.range (closedCount cfg ops))).map (fun i => some (Infix.num i)) := by
-  have htsd : TsdGuard cfg r ops := tsdGuard_of_not_tsd (by rw [hnm]; intro h; cases h)
   have hkc : FV.FlwC.kcOf r k = k := by simp [FV.FlwC.kcOf, FV.FlwC.kkOf, hnm, Naming.writesDirect]
-  obtain ⟨t, hi⟩ := multi_run_inv cfg r hr ops hm htsd
+  obtain ⟨t, hi⟩ := multi_run_inv cfg r hr ops hm
   rcases hi.rinv with ⟨hd, ha⟩ | ⟨act', hI, -⟩
   · unfold closedCount
     rw [hd, ha]
@@ -266,12 +242,11 @@ theorem rotated_names_numbersDirect (cfg : Cfg) (r : RotCfg) (k m : Nat) (hr : c
     (rotatedAsc (runOps (init cfg []) ops).dir).map (·.1.ifx) =
       (lastN (kk r k + m) (List.range (closedCount cfg ops + 1))).map
         (fun i => some (Infix.num i)) := by
-  have htsd : TsdGuard cfg r ops := tsdGuard_of_not_tsd (by rw [hnm]; intro h; cases h)
   have hkk : succL (limOf r) = some (kk r k + m) := by
     have hw : r.naming.writesDirect = true := by rw [hnm]; rfl
     rw [keep_lim hc, hw]
     rfl
-  obtain ⟨t, hi⟩ := multi_run_inv cfg r hr ops hm htsd
+  obtain ⟨t, hi⟩ := multi_run_inv cfg r hr ops hm
   rcases hi.rinv with ⟨-, ha⟩ | ⟨act', hI, -⟩
   · exfalso
     apply hst
@@ -294,11 +269,7 @@ theorem name_content_numbers (cfg : Cfg) (r : RotCfg) (hr : cfg.rot = some r)
       ∃ x, (fullLog cfg ops)[i]? = some x ∧ e.2.data <+: x ∧
         ((∀ act, (runOps (init cfg []) ops).act = some act →
             e.1 ≠ act.handle ∨ act.pending = []) → e.2.data = x) := by
-  have htsd : TsdGuard cfg r ops := by
-    apply tsdGuard_of_not_tsd
-    intro h
-    rcases hnm with h' | h' <;> rw [h'] at h <;> cases h
-  obtain ⟨t, hi⟩ := multi_run_inv cfg r hr ops hm htsd
+  obtain ⟨t, hi⟩ := multi_run_inv cfg r hr ops hm
   intro e he i hei
   rcases hi.rinv with ⟨hd, -⟩ | ⟨act', hI, hsame, hnone⟩
   · rw [hd] at he
@@ -318,9 +289,9 @@ theorem name_content_numbers (cfg : Cfg) (r : RotCfg) (hr : cfg.rot = some r)
     premise of `C07.compress_lossless` and `C11Cleanup.cleanup_pass_crash_safe`: compression
     never overwrites an existing `.gz`. -/
 theorem reachable_ifxDistinct (cfg : Cfg) (r : RotCfg) (hr : cfg.rot = some r)
-    (ops : List (Op × Nat × Faults)) (hm : MultiRun cfg.rot ops)
-    (htsd : TsdGuard cfg r ops) : FV.FlwL.IfxDistinct (runOps (init cfg []) ops).dir := by
-  obtain ⟨t, hi⟩ := multi_run_inv cfg r hr ops hm htsd
+    (ops : List (Op × Nat × Faults)) (hm : MultiRun cfg.rot ops) :
+    FV.FlwL.IfxDistinct (runOps (init cfg []) ops).dir := by
+  obtain ⟨t, hi⟩ := multi_run_inv cfg r hr ops hm
   rcases hi.rinv with ⟨hd, -⟩ | ⟨act', hI, -⟩
   · rw [hd]
     exact List.Pairwise.nil
@@ -363,11 +334,6 @@ theorem exOps_multiRun (nm : Naming) (k m : Nat) (app : Bool) (cap : Option Nat)
     simp [Op.usesClock]
   · simp [exOps, FV.FlwA.FlushedBeforeRestart, FV.FlwA.isRestart, FV.FlwA.endsRun]
 
-/-- nothing is required of `numbers` -/
-theorem exOps_guard (k m : Nat) (app : Bool) (cap : Option Nat) :
-    TsdGuard (exCfg .numbers k m app cap) (exRot .numbers k m) (exOps .numbers k m) :=
-  tsdGuard_of_not_tsd (by intro h; cases h)
-
 /-- the multi-run log without cleanup: seven files (the run with `append` continued `[3]`, the
     last run closed the empty `rCURRENT` left by the rotation before it) -/
 example : fullLog (exCfg .numbers 1 1 false (some 2)) (exOps .numbers 1 1) =
@@ -400,12 +366,10 @@ example :
 example : viewFiles (runOps (init (exCfg .numbers 1 1 false (some 2)) []) (exOps .numbers 1 1)) =
     lastN 3 (fullLog (exCfg .numbers 1 1 false (some 2)) (exOps .numbers 1 1)) :=
   restart_cleanup_keeps_newest _ (exRot .numbers 1 1) 1 1 rfl rfl _ (exOps_multiRun ..)
-    (exOps_guard 1 1 _ _)
 
 example : ∃ pre, written (exOps .numbers 1 1) = pre ++
     (viewFiles (runOps (init (exCfg .numbers 1 1 false (some 2)) []) (exOps .numbers 1 1))).flatten :=
   restart_cleanup_tail _ (exRot .numbers 1 1) 1 1 rfl rfl _ (exOps_multiRun ..)
-    (exOps_guard 1 1 _ _)
 
 /-- the state right after the non-appending restart + first write (`take 13`): the `rCURRENT`
     found (`[5]`) became `r00003`, `r00001.gz` was removed by the cleanup of `initState` -/
@@ -494,7 +458,7 @@ example :
       (·.1.ifx) = (lastN 2 (List.range 6)).map (fun i => some (Infix.num i)) :=
   rotated_names_numbers _ (exRot .numbers 1 1) 1 1 rfl rfl rfl _ (exOps_multiRun ..)
 
-/-! #### `timestampsDirect` with appending restarts, under the guard -/
+/-! #### `timestampsDirect` with appending restarts -/
 
 /-- runs WITH `append` that find the newest file under the base name of its second (seconds 12
     and 13), and a run without `append` within second 12 (collision-free name
@@ -524,11 +488,6 @@ theorem tOps_multiRun : MultiRun (exCfg .timestampsDirect 1 1 false (some 2)).ro
     simp [Op.usesClock]
   · simp [tOps, FV.FlwA.FlushedBeforeRestart, FV.FlwA.isRestart, FV.FlwA.endsRun]
 
-/-- the guard holds (decidable check `tsdGuardB`) -/
-theorem tOps_guard :
-    TsdGuard (exCfg .timestampsDirect 1 1 false (some 2)) (exRot .timestampsDirect 1 1) tOps :=
-  fun _ => tsdGuardB_sound _ _ (by decide)
-
 example :
     fullLog (exCfg .timestampsDirect 1 1 false (some 2)) tOps =
       [[1], [2], [3, 4], [5], [6], [7]] ∧
@@ -541,9 +500,49 @@ example :
 example : viewFiles (runOps (init (exCfg .timestampsDirect 1 1 false (some 2)) []) tOps) =
     lastN 2 (fullLog (exCfg .timestampsDirect 1 1 false (some 2)) tOps) :=
   restart_cleanup_keeps_newest _ (exRot .timestampsDirect 1 1) 1 1 rfl rfl _ tOps_multiRun
-    tOps_guard
 
-/-! ### finding: `timestampsDirect` WITH `append` and cleanup loses the newest records -/
+/-- runs WITH `append` that find the newest file under a `.restart-N` name (three files within
+    second 10; the appending runs continue `r…10.restart-0001` and `r…10.restart-0002`, the
+    latter next to a COMPRESSED sibling) — no guard -/
+def uOps : List (Op × Nat × Faults) :=
+  [(.write [1], 10, noFaults), (.rotate, 10, noFaults), (.write [2], 10, noFaults),
+   (.rotate, 10, noFaults), (.write [3], 10, noFaults), (.shutdown, 0, noFaults),
+   (.restart (exCfg .timestampsDirect 1 1 true (some 4)), 0, noFaults),
+   (.write [4], 10, noFaults), (.rotate, 10, noFaults), (.write [5], 11, noFaults),
+   (.flush, 0, noFaults),
+   (.restart (exCfg .timestampsDirect 1 1 true none), 0, noFaults),
+   (.write [6], 11, noFaults)]
+
+theorem uOps_multiRun : MultiRun (exCfg .timestampsDirect 1 1 false none).rot uOps := by
+  refine ⟨?_, ?_, ?_⟩
+  · intro o ho
+    simp only [uOps, List.mem_cons, List.mem_nil_iff, or_false] at ho
+    rcases ho with rfl | rfl | rfl | rfl | rfl | rfl | rfl | rfl | rfl | rfl | rfl | rfl | rfl <;>
+      first
+        | exact ⟨Or.inl rfl, rfl⟩
+        | exact ⟨Or.inr ⟨_, rfl, rfl⟩, rfl⟩
+  · unfold Monotone uOps
+    simp [Op.usesClock]
+  · simp [uOps, FV.FlwA.FlushedBeforeRestart, FV.FlwA.isRestart, FV.FlwA.endsRun]
+
+example :
+    fullLog (exCfg .timestampsDirect 1 1 false none) uOps = [[1], [2], [3, 4], [5, 6]] ∧
+    (listing (runOps (init (exCfg .timestampsDirect 1 1 false none) []) (uOps.take 8)).dir).map
+        (fun e => (e.1, e.2.data)) =
+      [(⟨some (.ts 10 (some 1)), false⟩, [3]), (⟨some (.ts 10 (some 0)), true⟩, [2])] ∧
+    viewFiles (runOps (init (exCfg .timestampsDirect 1 1 false none) []) (uOps.take 8)) =
+      [[2], [3, 4]] ∧
+    (listing (runOps (init (exCfg .timestampsDirect 1 1 false none) []) uOps).dir).map
+        (fun e => (e.1, e.2.data)) =
+      [(⟨some (.ts 10 (some 2)), false⟩, [5, 6]), (⟨some (.ts 10 (some 1)), true⟩, [3, 4])] ∧
+    viewFiles (runOps (init (exCfg .timestampsDirect 1 1 false none) []) uOps) =
+      [[3, 4], [5, 6]] := by decide
+
+example : viewFiles (runOps (init (exCfg .timestampsDirect 1 1 false none) []) uOps) =
+    lastN 2 (fullLog (exCfg .timestampsDirect 1 1 false none) uOps) :=
+  restart_cleanup_keeps_newest _ (exRot .timestampsDirect 1 1) 1 1 rfl rfl _ uOps_multiRun
+
+/-! ### the former finding: `timestampsDirect` WITH `append` and cleanup (repaired) -/
 
 def wCfg : Cfg := exCfg .timestampsDirect 1 1 false none
 
@@ -554,7 +553,7 @@ def wOps : List (Op × Nat × Faults) :=
    (.flush, 0, noFaults), (.restart (exCfg .timestampsDirect 1 1 true none), 0, noFaults),
    (.write [3], 10, noFaults)]
 
-/-- the witness is a multi-run history -/
+/-- the history is a multi-run history -/
 theorem wOps_multiRun : MultiRun wCfg.rot wOps := by
   refine ⟨?_, ?_, ?_⟩
   · intro o ho
@@ -567,43 +566,34 @@ theorem wOps_multiRun : MultiRun wCfg.rot wOps := by
     simp [Op.usesClock]
   · simp [wOps, FV.FlwA.FlushedBeforeRestart, FV.FlwA.isRestart, FV.FlwA.endsRun]
 
-/-- **The statements are FALSE for `timestampsDirect` with an appending restart (finding D22,
-    aggravated by cleanup).** Limits `k = 1`, `m = 1` (two files are to be kept). Before the
-    restart the directory holds `r…10.gz = [1]` and the current file `r…10.restart-0000 = [2]`.
-    The appending run computes the BASE name `r…10` of the newest second (D22), does not find it
-    as a plain file (it is compressed), creates it — and the cleanup of `initState` compresses
-    this brand-new current file over `r…10.gz` and removes the result, because the listing puts
-    it after the `.restart-0000` sibling. The writer then writes into an unlinked file: record
-    `3` — the NEWEST — is lost, record `1` — within the limits — is lost; only `[2]` remains,
-    which is not a tail of `[1, 2, 3]`. -/
-theorem tsd_append_cleanup_violation_witness :
-    tsdGuardB (init wCfg []) wOps = false ∧
+/-- **This history was the witness of the defect repaired by the `fix:` commit** (finding D22,
+    `C06-tsd-append-after-restart-files`, aggravated by cleanup). Limits `k = 1`, `m = 1` (two
+    files are to be kept). Before the restart the directory holds `r…10.gz = [1]` and the current
+    file `r…10.restart-0000 = [2]`. Before the repair the appending run computed the BASE name
+    `r…10` of the newest second, created it, and the cleanup of `initState` compressed this
+    brand-new current file over `r…10.gz` and removed it: records `3` and `1` were lost, only
+    `[2]` remained. Now the appending run continues the newest file `r…10.restart-0000`: nothing
+    is lost, the view is the whole log `[[1], [2, 3]]` (two files, within the limits). -/
+theorem tsd_append_cleanup_former_witness :
     (runOps (init wCfg []) (wOps.take 4)).dir.map (fun e => (e.1, e.2.data)) =
       [(⟨some (.ts 10 (some 0)), false⟩, [2]), (⟨some (.ts 10 none), true⟩, [1])] ∧
     (runOps (init wCfg []) wOps).dir.map (fun e => (e.1, e.2.data)) =
-      [(⟨some (.ts 10 (some 0)), false⟩, [2])] ∧
-    viewFiles (runOps (init wCfg []) wOps) = [[2]] ∧ written wOps = [1, 2, 3] ∧
-    ¬ ∃ pre, written wOps = pre ++ (viewFiles (runOps (init wCfg []) wOps)).flatten := by
-  refine ⟨by decide, by decide, by decide, by decide, by decide, ?_⟩
-  rintro ⟨pre, h⟩
-  have h1 : written wOps = [1, 2, 3] := by decide
-  have h2 : (viewFiles (runOps (init wCfg []) wOps)).flatten = [2] := by decide
-  rw [h1, h2] at h
-  have := congrArg List.reverse h
-  simp at this
+      [(⟨some (.ts 10 (some 0)), false⟩, [2, 3]), (⟨some (.ts 10 none), true⟩, [1])] ∧
+    viewFiles (runOps (init wCfg []) wOps) = [[1], [2, 3]] ∧ written wOps = [1, 2, 3] ∧
+    fullLog wCfg wOps = [[1], [2, 3]] ∧
+    (viewFiles (runOps (init wCfg []) wOps)).flatten = written wOps := by
+  refine ⟨by decide, by decide, by decide, by decide, by decide, by decide⟩
 
-/-- … and the guard indeed fails on this history: at the appending restart the newest file is the
-    `.restart-0000` sibling of second 10 -/
-theorem wOps_guard_fails : ¬ TsdGuard wCfg (exRot .timestampsDirect 1 1) wOps := by
-  intro h
-  have h1 := h rfl (wOps.take 4) (exCfg .timestampsDirect 1 1 true none) 0 noFaults
-    [(.write [3], 10, noFaults)] rfl rfl
-  have hmem : ((⟨some (.ts 10 (some 0)), false⟩ : FName), (⟨[2], 10⟩ : File)) ∈
-      ents (runOps (init wCfg []) (wOps.take 4)).dir := by decide
-  obtain ⟨k', h2, h3⟩ := h1 _ hmem 10 0 rfl
-  have h4 : latestStamp (runOps (init wCfg []) (wOps.take 4)).dir = some 10 := by decide
-  rw [h4] at h2
-  cases h2
-  omega
+/-- … as the theorems say -/
+example : viewFiles (runOps (init wCfg []) wOps) = lastN 2 (fullLog wCfg wOps) :=
+  restart_cleanup_keeps_newest _ (exRot .timestampsDirect 1 1) 1 1 rfl rfl _ wOps_multiRun
+
+example : ∃ pre, written wOps = pre ++ (viewFiles (runOps (init wCfg []) wOps)).flatten :=
+  restart_cleanup_tail _ (exRot .timestampsDirect 1 1) 1 1 rfl rfl _ wOps_multiRun
+
+/-- the guard that was needed before the repair (the newest stamp has no `.restart-N` sibling
+    when an appending run is started) does not hold on this history: at the appending restart
+    the newest file is the `.restart-0000` sibling of second 10 -/
+example : FV.FlwB.newestIsBaseB (runOps (init wCfg []) (wOps.take 4)).dir = false := by decide
 
 end FV.C06Cleanup
